@@ -15,6 +15,7 @@
 """
 # pylint:disable=protected-access
 import sys
+import threading
 import weakref
 from types import FunctionType
 from types import MethodType
@@ -40,6 +41,9 @@ CO_VARARGS = 4
 CO_VARKEYWORDS = 8
 # Put in the attrs dict of an interface by ``taggedValue`` and ``invariants``
 TAGGED_DATA = '__interface_tagged_values__'
+# Guards the on-demand creation of ``Specification._dependents``.
+_dependents_lock = threading.Lock()
+
 # Put in the attrs dict of an interface by ``interfacemethod``
 INTERFACE_METHODS = '__interface_methods__'
 
@@ -384,7 +388,13 @@ class Specification(SpecificationBase):
     @property
     def dependents(self):
         if self._dependents is None:
-            self._dependents = weakref.WeakKeyDictionary()
+            # Created on demand (most specifications never get any).
+            # Two threads subscribing at the same time must not both
+            # create one: the second would replace the first and drop
+            # the subscription that was just recorded in it.
+            with _dependents_lock:
+                if self._dependents is None:
+                    self._dependents = weakref.WeakKeyDictionary()
         return self._dependents
 
     def subscribe(self, dependent):
